@@ -53,14 +53,15 @@ def load_baseline():
 _replay_built = {}
 
 
-def build_replay(profile="debug"):
-    """Build the replay binary against the current working tree of the repository (hooks on)."""
-    if profile in _replay_built: return _replay_built[profile]
+def build_replay(profile="debug", backend="ibig"):
+    """Build the replay binary against the current working tree of the repository (hooks on). `backend`: the big-integer feature of the crate."""
+    if (profile, backend) in _replay_built: return _replay_built[(profile, backend)]
     import hashlib, shutil
     tag = "" if REPO == "/repo" else "-" + hashlib.sha256(REPO.encode()).hexdigest()[:8]
+    if backend != "ibig": tag += "-" + backend
     crate = os.path.join(BUILD, "replay-crate" + tag)
     os.makedirs(os.path.join(crate, "src"), exist_ok=True)
-    toml = open(os.path.join(VERIF, "replay", "Cargo.toml")).read().replace('path = "/repo"', 'path = "%s"' % REPO)
+    toml = open(os.path.join(VERIF, "replay", "Cargo.toml")).read().replace('path = "/repo"', 'path = "%s"' % REPO).replace('features = ["ibig"]', 'features = ["%s"]' % backend)
     for src, dst in ((None, "Cargo.toml"), ("Cargo.lock", "Cargo.lock"), ("src/main.rs", "src/main.rs")):
         d = os.path.join(crate, dst)
         new = toml if src is None else open(os.path.join(VERIF, "replay", src)).read()
@@ -73,12 +74,12 @@ def build_replay(profile="debug"):
     if p.returncode != 0:
         raise Undecided("replay crate does not build against %s: %s" % (REPO, p.stderr[-800:]))
     exe = os.path.join(tgt, profile, "vreplay")
-    _replay_built[profile] = exe
+    _replay_built[(profile, backend)] = exe
     return exe
 
 
-def replay_requests(reqs, profile="debug", timeout=120):
-    exe = build_replay(profile)
+def replay_requests(reqs, profile="debug", timeout=120, backend="ibig"):
+    exe = build_replay(profile, backend)
     inp = "\n".join(json.dumps(r) for r in reqs) + "\n"
     p = subprocess.run([exe], input=inp, capture_output=True, text=True, timeout=timeout)
     out = []
